@@ -227,6 +227,35 @@ func insideWant(base, call *model) *model {
 	return &m
 }
 
+// materializeMultiline fills in what an effective Multiline(true) implies for the options left
+// unset (documented on jsontext.Multiline): SpaceAfterColon true, SpaceAfterComma false, indent "\t".
+func materializeMultiline(m *model) *model {
+	mm := *m
+	if mm.has[kMultiline] && mm.val[kMultiline] {
+		if !mm.has[kSpaceAfterColon] {
+			mm.setBool(kSpaceAfterColon, true)
+		}
+		if !mm.has[kSpaceAfterComma] {
+			mm.setBool(kSpaceAfterComma, false)
+		}
+		if mm.indent == nil {
+			tab := "\t"
+			mm.indent = &tab
+		}
+	}
+	return &mm
+}
+
+// whitespaceOf is the whitespace layout a model produces (indent and prefix only matter when multiline).
+func whitespaceOf(m *model) string {
+	b := func(k int) bool { return m.has[k] && m.val[k] }
+	s := fmt.Sprintf("ml=%v colon=%v comma=%v", b(kMultiline), b(kSpaceAfterColon), b(kSpaceAfterComma))
+	if b(kMultiline) {
+		s += fmt.Sprintf(" indent=%q prefix=%q", strp(m.indent), strp(m.prefix))
+	}
+	return s
+}
+
 func runScope(w *run.W, a *scopeArgs) {
 	for _, i := range append(append([]int{}, a.Base...), a.Call...) {
 		if i < 0 || i >= len(atoms) {
@@ -257,7 +286,7 @@ func runScope(w *run.W, a *scopeArgs) {
 	var before, after *vector
 	var callErr error
 	var userPanic, libPanic bool
-	var nextGot, nextWant []byte
+	var nextGot, nextWant, encodedFirst []byte
 	nextChecked := false
 
 	switch a.Side {
@@ -279,6 +308,9 @@ func runScope(w *run.W, a *scopeArgs) {
 			callErr = json.MarshalEncode(e, scopeValue(a.Shape, p, a.Outcome == "unsupported"), callOpts...)
 		})
 		after = observe(e.Options())
+		if callErr == nil && !userPanic && !libPanic && a.Pos == "top" {
+			encodedFirst = bytes.Clone(buf.Bytes())
+		}
 		if callErr == nil && !userPanic && !libPanic && a.Pos == "top" {
 			// next call on the same encoder vs a fresh encoder with the same construction options
 			n0 := buf.Len()
@@ -389,6 +421,33 @@ func runScope(w *run.W, a *scopeArgs) {
 			w.Violate("call-options-precedence", sig(map[string]string{"getter": g}),
 				"%s constructed with %s, call options %s: inside the call GetOption(%s) = %s, want %s (call options override coder options)",
 				a.Side, seqName(a.Base), seqName(a.Call), g, got, wantS)
+		}
+	}
+	// (5) coder options + call options == the same options passed to Marshal in one list: MarshalEncode refuses
+	// call options only when they change the whitespace layout of the Encoder (it cannot re-indent what is already
+	// written); when the layout stays the same and user code behaves, it must succeed and deliver Marshal's bytes
+	if a.Side == "encoder" && a.Outcome == "ok" && !userPanic {
+		eff := materializeMultiline(baseM)
+		joined := materializeMultiline(insideWant(eff, callM))
+		if whitespaceOf(eff) == whitespaceOf(joined) {
+			w.Count("scope_same_layout_calls", 1)
+			all := append(buildOpts(a.Base), callOpts...)
+			savedInside, savedCalls := probeInside, probeCalls
+			probeCalls = 0 // (the probe writes a different string from its second invocation on)
+			ref, refErr := json.Marshal(scopeValue(a.Shape, probe{X: 1}, false), all...)
+			probeInside, probeCalls = savedInside, savedCalls
+			switch {
+			case callErr != nil && refErr == nil:
+				w.Violate("call-options-rejected", sig(map[string]string{"pos": a.Pos}),
+					"encoder constructed with %s, MarshalEncode with %s (same whitespace layout %s): error %v, while Marshal with the same options in one list succeeds: %s",
+					seqName(a.Base), seqName(a.Call), whitespaceOf(joined), callErr, ref)
+			case callErr == nil && refErr == nil && a.Pos == "top" && encodedFirst != nil && a.Shape != "map-value": // (member order of the two-member map is unspecified)
+				w.Count("scope_bytes_vs_marshal", 1)
+				if !bytes.Equal(bytes.TrimSuffix(encodedFirst, []byte("\n")), ref) {
+					w.Violate("call-options-bytes", sig(nil), "encoder constructed with %s, MarshalEncode with %s wrote %q; Marshal with the same options in one list gives %q",
+						seqName(a.Base), seqName(a.Call), encodedFirst, ref)
+				}
+			}
 		}
 	}
 	// (4) the next call behaves as before
